@@ -239,6 +239,7 @@ type world struct {
 	primersPassed, primersRefused int
 	buf                           []byte     // scratch of dump/changed
 	trail                         []caseSpec // rows sent since the last boot (trail_test.go)
+	srcHolds                      map[string]string // chain_test.go: current content of the world's token sources
 }
 
 func newWorld(spec cfgSpec, slot int, dir string) *world {
@@ -390,7 +391,11 @@ func (w *world) dumpInto(b []byte) []byte {
 		return append(b, "ERR "+err.Error()...)
 	}
 	items := ml.Items
-	sort.Slice(items, func(i, j int) bool { return items[i].ID < items[j].ID })
+	for i := 1; i < len(items); i++ { // insertion sort by id: a dozen items, no reflection, no allocation
+		for j := i; j > 0 && items[j].ID < items[j-1].ID; j-- {
+			items[j], items[j-1] = items[j-1], items[j]
+		}
+	}
 	num := func(label string, v int64) {
 		b = append(b, label...)
 		b = strconv.AppendInt(b, v, 10)
